@@ -337,6 +337,7 @@ fn laws_engine() -> Tera {
         ("oddeven", "{{ v is odd }}|{{ v is even }}|{{ v is divisible_by(divisor=2) }}"),
         ("startend", "{{ v is starting_with(pat=a) }}|{{ v is ending_with(pat=a) }}|{{ v is containing(pat=a) }}"),
         ("plural", "{{ v | pluralize }}|{{ v | pluralize(singular=\"y\", plural=\"ies\") }}"),
+        ("divby", "{{ v is divisible_by(divisor=d) }}"),
     ] {
         tp.push((n.to_string(), s.to_string()));
     }
@@ -678,6 +679,35 @@ fn law_case(cx: &mut Cx, t: &Tera, rng: &mut Rng) {
             match rend!("oddeven", &c2) {
                 Ok(o) if o == format!("{}|{}|{}", i % 2 != 0, i % 2 == 0, i % 2 == 0) => {}
                 other => fail!("odd-even", nrp.clone(), "{num:?} is odd|even|divisible_by(2) -> {other:?}"),
+            }
+            // divisibility agrees with exact arithmetic for every non-zero divisor, the extremes included
+            let d: i128 = match rng.below(8) {
+                0 => -1,
+                1 => i128::MIN,
+                2 => i128::MAX,
+                3 => i,
+                4 => 0,
+                5 => if i != 0 && i != i128::MIN { -i } else { 3 },
+                _ => *rng.pick(&[1i128, 2, 3, -3, 7, 10, -10, 1 << 64, -(1 << 64)]),
+            };
+            c2.insert_value("d", Value::from(d));
+            match rend!("divby", &c2) {
+                Ok(o) => {
+                    if d != 0 {
+                        let exp = i.checked_rem(d).map(|r| r == 0).unwrap_or(true);
+                        if o != exp.to_string() {
+                            fail!("divisible_by", nrp.clone(), "{i} is divisible_by(divisor={d}) -> {o}, exact arithmetic says {exp}");
+                        }
+                    } else if o != "true" && o != "false" {
+                        fail!("divisible_by", nrp.clone(), "{i} is divisible_by(divisor=0) -> {o}");
+                    }
+                }
+                // refusing a zero divisor is fine, anything else must answer
+                Err(e) => {
+                    if d != 0 {
+                        fail!("divisible_by-error", nrp.clone(), "{i} is divisible_by(divisor={d}) failed: {e}");
+                    }
+                }
             }
             match rend!("plural", &c2) {
                 Ok(o) => {
